@@ -173,9 +173,7 @@ func (r *resolver) Resolve(obj *ref.Obj, parentDef *gast.Definition, fd *gast.Fi
 				return "MISSING-REQUIRES-INPUT", nil
 			}
 		} else {
-			xfd := parentDef.Fields.ForName(fi.Requires)
-			v, _ := r.u.Resolve(obj, parentDef, xfd, map[string]any{}, nil)
-			input = ref.NormalizeJSON(v)
+			input = r.referenceValue(obj, parentDef, fi.Requires)
 		}
 		return RequiresValue(obj.Type, fd.Name, obj.ID, input), nil
 	}
@@ -184,6 +182,17 @@ func (r *resolver) Resolve(obj *ref.Obj, parentDef *gast.Definition, fd *gast.Fi
 		r.markProvidedDeep(c, v)
 	}
 	return v, err
+}
+
+// referenceValue is the monolithic value of an argument-free leaf field (used as @requires input):
+// the universe's value, or - for a field that is itself computed by @requires - the computed one.
+func (r *resolver) referenceValue(obj *ref.Obj, parentDef *gast.Definition, name string) any {
+	xfd := parentDef.Fields.ForName(name)
+	if xi := r.l.Fields[coord(obj.Type, name)]; xi != nil && xi.Requires != "" {
+		return RequiresValue(obj.Type, name, obj.ID, r.referenceValue(obj, parentDef, xi.Requires))
+	}
+	v, _ := r.u.Resolve(obj, parentDef, xfd, map[string]any{}, nil)
+	return ref.NormalizeJSON(v)
 }
 
 func (r *resolver) markProvided(c string, o *ref.Obj) {
